@@ -18,6 +18,7 @@ import DSymVerif.Proofs.SimplifyCollapse
 import DSymVerif.Proofs.SimplifySteps
 import DSymVerif.Proofs.SimplifySkeleton
 import DSymVerif.Proofs.SimplifyManifold
+import DSymVerif.Proofs.FundGroupInnerFaces
 
 namespace DSymVerif.C16
 open DSymVerif DSymVerif.DS DSymVerif.Simp
@@ -188,9 +189,9 @@ example : (∃ s, cutTile ex8 [1, 2] = .ok s) ∧ ex8.opU 0 1 = 2 ∧ ex8.opU 0 
 `Axioms3 ds` = complete with involutive operations (`ValidSet`), dimension 3, far operations
 commute (s0s2, s0s3, s1s3: the D-symbol axiom m_ij = 2).  These are the Spec clauses
 "entries-in-range-and-involutive", "complete", "far-operations-commute" of Spec/C16, now theorems
-about every modelled deterministic step.  Two kinds of hypotheses remain explicit:
-  * `InnerWallsAreFaces` — the one fact about `inner_edges` (fundamental_group.rs) used: the
-    3-edges it declares inner come in whole faces (closed under s0, s1); needed for `merge_tiles`;
+about every modelled deterministic step.  `merge_tiles` rests on `FGP.innerWallsAreFaces` (w-c09:
+the 3-edges `inner_edges` declares inner come in whole faces), which is proved, so only one kind
+of hypothesis remains explicit:
   * general position of the local moves: the eight chambers a corner re-gluing / squeeze touches
     are distinct (true in loopless oriented D-sets away from self-glued faces; in the degenerate
     coincidences the real code still runs and is covered by the Spec, not by these theorems). -/
@@ -261,10 +262,13 @@ theorem merge_facets_preserves_axioms {ds s : DSetData} (hax : Axioms3 ds)
 example : Axioms3 exFacets ∧ ∃ s, mergeFacets (.dset exFacets) = .ok (some (.dset s)) :=
   ⟨axioms3_of_bool (by decide +kernel) rfl (by decide +kernel), returnsDSet_exists (by decide +kernel)⟩
 
-/-- ○ **`merge_tiles` keeps the D-set axioms** when the walls it removes consist of whole faces -/
-theorem merge_tiles_preserves_axioms {ds s : DSetData} (hax : Axioms3 ds) (hw : TilesJunkFaces ds)
+/-- ○ **`merge_tiles` keeps the D-set axioms** — unconditionally: the walls it removes consist of
+    whole faces (`FGP.innerWallsAreFaces`, proved by w-c09 about `inner_edges`: saturation of
+    `glue_recursively` + the index priority of `Traversal`), so `collapse` with connector 3 only
+    re-routes s2. -/
+theorem merge_tiles_preserves_axioms {ds s : DSetData} (hax : Axioms3 ds)
     (h : mergeTiles (.dset ds) = .ok (some (.dset s))) : Axioms3 s :=
-  mergeTiles_model_preserves hax hw h
+  mergeTiles_model_preserves hax (DSymVerif.FGP.innerWallsAreFaces ds hax) h
 
 example : Axioms3 exTiles ∧ ∃ s, mergeTiles (.dset exTiles) = .ok (some (.dset s)) :=
   ⟨axioms3_of_bool (by decide +kernel) rfl (by decide +kernel), returnsDSet_exists (by decide +kernel)⟩
@@ -277,10 +281,10 @@ theorem dual_preserves_axioms {ds s : DSetData} (hax : Axioms3 ds)
 example : Axioms3 ex8 ∧ ∃ s, Simp.dual (.dset ex8) = .ok (some (.dset s)) :=
   ⟨axioms3_of_bool (by decide) rfl (by decide), returnsDSet_exists (by decide +kernel)⟩
 
-/-- ○ **`merge_all` keeps the D-set axioms** (given the fact about `inner_edges`) -/
-theorem merge_all_preserves_axioms (hw : InnerWallsAreFaces) {ds s : DSetData} (hax : Axioms3 ds)
+/-- ○ **`merge_all` keeps the D-set axioms** -/
+theorem merge_all_preserves_axioms {ds s : DSetData} (hax : Axioms3 ds)
     (h : mergeAll (.dset ds) = .ok (some (.dset s))) : Axioms3 s :=
-  mergeAll_preserves hw hax h
+  mergeAll_preserves DSymVerif.FGP.innerWallsAreFaces hax h
 
 example : Axioms3 exAll ∧ ∃ s, mergeAll (.dset exAll) = .ok (some (.dset s)) :=
   ⟨axioms3_of_bool (by decide +kernel) rfl (by decide +kernel), returnsDSet_exists (by decide +kernel)⟩
@@ -326,7 +330,7 @@ example : Axioms3 exFnd ∧ ∃ s, fixNonDiskFace (.dset exFnd) = .ok (some (.ds
     maps a complete 3-dimensional D-set with involutive operations and commuting far operations to
     one again (hypotheses as explained above; `split_and_glue` is not modelled — its building
     blocks `cut_face`, `cut_tile`, `collapse` are covered by the theorems above). -/
-theorem simplify_step_preserves_dset_axioms (hw : InnerWallsAreFaces) {ds s : DSetData} (hax : Axioms3 ds) :
+theorem simplify_step_preserves_dset_axioms {ds s : DSetData} (hax : Axioms3 ds) :
     (mergeTiles (.dset ds) = .ok (some (.dset s)) → Axioms3 s) ∧
     (mergeFacets (.dset ds) = .ok (some (.dset s)) → Axioms3 s) ∧
     (Simp.dual (.dset ds) = .ok (some (.dset s)) → Axioms3 s) ∧
@@ -345,10 +349,10 @@ theorem simplify_step_preserves_dset_axioms (hw : InnerWallsAreFaces) {ds s : DS
       (∀ d e, 1 ≤ d → d ≤ ds.size → 1 ≤ e → e ≤ ds.size → nonDiskGlue ds d e = .ok (some (.dset s)) →
         [d, ds.opU 1 e, e, ds.opU 1 d, ds.opU 3 d, ds.opU 1 (ds.opU 3 e), ds.opU 3 e,
           ds.opU 1 (ds.opU 3 d)].Nodup) → Axioms3 s) :=
-  ⟨fun h => mergeTiles_model_preserves hax (hw ds hax) h,
+  ⟨fun h => mergeTiles_model_preserves hax (DSymVerif.FGP.innerWallsAreFaces ds hax) h,
    fun h => mergeFacets_preserves hax.1 hax.2.1 hax.2.2 h,
    fun h => dual_axioms hax h,
-   fun h => mergeAll_preserves hw hax h,
+   fun h => mergeAll_preserves DSymVerif.FGP.innerWallsAreFaces hax h,
    fun h hnd => fixLocal1Vertex_preserves hax.1 hax.2.1 hax.2.2 hnd h,
    fun h hnd => fixLocal2Vertex_preserves hax.1 hax.2.1 hax.2.2 hnd h,
    fun h hnd => fixNonDiskFace_preserves hax.1 hax.2.1 hax.2.2 hnd h⟩
@@ -461,10 +465,9 @@ example : Manifold3 ex8 ∧ (∃ s, cutTile ex8 [1, 2] = .ok s) ∧ ex8.opU 0 1 
 
 /-- ○ **`simplify_step_preserves_manifold_clauses`.**  Every modelled deterministic step of
     `simplify` maps a complete, loopless 3-dimensional D-set whose far operations commute and differ
-    to one again: `merge_facets` and `dual` unconditionally, `merge_tiles` / `merge_all` given the
-    fact `InnerWallsAreFaces` about `inner_edges`, the local moves when the eight chambers they
-    re-glue are distinct. -/
-theorem simplify_step_preserves_manifold_clauses (hw : InnerWallsAreFaces) {ds s : DSetData} (hm : Manifold3 ds) :
+    to one again: `merge_facets`, `merge_tiles`, `dual`, `merge_all` unconditionally, the local moves when the
+    eight chambers they re-glue are distinct. -/
+theorem simplify_step_preserves_manifold_clauses {ds s : DSetData} (hm : Manifold3 ds) :
     (mergeTiles (.dset ds) = .ok (some (.dset s)) → Manifold3 s) ∧
     (mergeFacets (.dset ds) = .ok (some (.dset s)) → Manifold3 s) ∧
     (Simp.dual (.dset ds) = .ok (some (.dset s)) → Manifold3 s) ∧
@@ -483,10 +486,10 @@ theorem simplify_step_preserves_manifold_clauses (hw : InnerWallsAreFaces) {ds s
       (∀ d e, 1 ≤ d → d ≤ ds.size → 1 ≤ e → e ≤ ds.size → nonDiskGlue ds d e = .ok (some (.dset s)) →
         [d, ds.opU 1 e, e, ds.opU 1 d, ds.opU 3 d, ds.opU 1 (ds.opU 3 e), ds.opU 3 e,
           ds.opU 1 (ds.opU 3 d)].Nodup) → Manifold3 s) :=
-  ⟨fun h => mergeTiles_manifold hm (hw ds hm.1) h,
+  ⟨fun h => mergeTiles_manifold hm (DSymVerif.FGP.innerWallsAreFaces ds hm.1) h,
    fun h => mergeFacets_manifold hm h,
    fun h => dual_manifold hm h,
-   fun h => mergeAll_manifold hw hm h,
+   fun h => mergeAll_manifold DSymVerif.FGP.innerWallsAreFaces hm h,
    fun h hnd => fixLocal1Vertex_manifold hm hnd h,
    fun h hnd => fixLocal2Vertex_manifold hm hnd h,
    fun h hnd => fixNonDiskFace_manifold hm hnd h⟩
